@@ -54,6 +54,7 @@ pub enum AgeDecryptor { Recipients(RecipientsDecryptor), Passphrase(PassphraseDe
 pub struct AgeStreamReader { pub r: Ghost<Seq<u8>> }
 pub mod age {
     pub use crate::AgeDecryptor as Decryptor;
+    pub use crate::AgeEncryptor as Encryptor;
     pub mod x25519 { pub use crate::AgeIdentity as Identity; }
 }
 impl AgeDecryptor {
@@ -103,6 +104,50 @@ pub mod byte_ser {
     #[allow(unused_imports)] use super::*;
     pub struct ByteSerError { pub c: u8 }
     #[verifier::external_body]
+    pub fn to_bytes_enc_meta(m: &SlatepackEncMetadataBin) -> (r: Result<Vec<u8>, ByteSerError>)
+        ensures r matches Ok(v) ==> v@ == spec_enc_meta_bytes(m.0) { unimplemented!() }
+    #[verifier::external_body]
     pub fn from_bytes_enc_meta(b: &Vec<u8>) -> (r: Result<SlatepackEncMetadataBin, ByteSerError>)
         ensures r matches Ok(m) ==> spec_enc_meta_of(b@) == Some(m.0), spec_enc_meta_of(b@) is Some ==> r is Ok { unimplemented!() }
 }
+
+// ---- encryption side (C10). age encryption is randomised: `age_encrypts(file, recipients, data)` is the RELATION "file is an age
+// encryption of data to these x25519 recipient keys"; A-age-roundtrip: every recipient's identity opens it to exactly data.
+pub uninterp spec fn age_encrypts(file: Seq<u8>, recipients: Seq<Seq<u8>>, data: Seq<u8>) -> bool;
+pub uninterp spec fn spec_x25519_pub(x_secret: Seq<u8>) -> Seq<u8>;
+#[verifier::external_body]
+pub proof fn axiom_age_roundtrip(file: Seq<u8>, recipients: Seq<Seq<u8>>, data: Seq<u8>, x_secret: Seq<u8>)
+    requires age_encrypts(file, recipients, data), recipients.contains(spec_x25519_pub(x_secret))
+    ensures spec_age_plain(file, x_secret) == Some(data)
+{ }
+// the x25519 recipient key of a slatepack address (birational map of its ed25519 key); A-ed-x: it is the public key of the age
+// identity made from SHA-512(ed25519 secret)[0..32] of the address's own secret key
+pub uninterp spec fn spec_addr_xpub(a: SlatepackAddress) -> Seq<u8>;
+pub uninterp spec fn spec_addr_of_secret(k: DalekSecretKey) -> SlatepackAddress;
+#[verifier::external_body]
+pub proof fn axiom_ed_x(k: DalekSecretKey)
+    ensures spec_x25519_pub(spec_sha512(spec_ed_secret_bytes(k).take(32)).take(32)) == spec_addr_xpub(spec_addr_of_secret(k))
+{ }
+pub struct AgeRecipient { pub k: Ghost<Seq<u8>> }
+// L3: `recipients.into_iter().map(|addr| { addr.to_age_pubkey_str()?.parse()? boxed }).collect::<Result<Vec<_>, _>>()`
+#[verifier::external_body]
+pub fn vf_age_recipients(recipients: Vec<SlatepackAddress>) -> (r: Result<Vec<AgeRecipient>, Error>)
+    ensures r matches Ok(v) ==> v@.len() == recipients@.len() && forall|i: int| 0 <= i < v@.len() ==> (#[trigger] v@[i]).k@ == spec_addr_xpub(recipients@[i])
+{ unimplemented!() }
+pub struct AgeEncryptor { pub keys: Ghost<Seq<Seq<u8>>> }
+impl AgeEncryptor {
+    #[verifier::external_body]
+    pub fn with_recipients(keys: Vec<AgeRecipient>) -> (r: AgeEncryptor) ensures r.keys@ == keys@.map(|i: int, k: AgeRecipient| k.k@) { unimplemented!() }
+}
+// L17: `let mut out = vec![]; let mut w = enc.wrap_output(&mut out)?; w.write_all(data)?; w.finish()?;` as one call
+#[verifier::external_body]
+pub fn vf_age_encrypt_all(enc: AgeEncryptor, data: &Vec<u8>) -> (r: Result<Vec<u8>, IoError>)
+    ensures r matches Ok(v) ==> age_encrypts(v@, enc.keys@, data@)
+{ unimplemented!() }
+// what SlatepackEncMetadataBin::write produces (u32 length of the body, then the body) — A-meta-format: the reader decodes it back
+pub uninterp spec fn spec_enc_meta_bytes(m: SlatepackEncMetadata) -> Seq<u8>;
+#[verifier::external_body]
+pub proof fn axiom_enc_meta_format(m: SlatepackEncMetadata)
+    ensures spec_enc_meta_bytes(m).len() >= 4, 4 + spec_de32(spec_enc_meta_bytes(m).take(4)) == spec_enc_meta_bytes(m).len(),
+        spec_enc_meta_of(spec_enc_meta_bytes(m)) == Some(m)
+{ }
